@@ -47,7 +47,7 @@ def gen(rng, tier, idx):
     sched['poison'] = rng.random() < 0.7
     return dict(kind=kind, P=max(g[0] * g[1] for g in grids), ckw=ckw, grids=grids,
                 chi=rng.choice([0, 1]), adiabatic=rng.random() < 0.75, rseed=rng.randrange(1 << 30),
-                complex_rho=rng.random() < 0.15, start=rng.choice(['flux_surface', 'v_parallel', 'poloidal']),
+                complex_rho=rng.random() < 0.15, twice=rng.random() < 0.4, start=rng.choice(['flux_surface', 'v_parallel', 'poloidal']),
                 sched=sched)
 
 
@@ -65,6 +65,7 @@ def run_pipeline(case, tape):
     ckw = case['ckw']
     npts = ckw['npts']
     R = density(case)
+    R2 = density(dict(case, rseed=case['rseed'] + 991)) * 3.0
     phis = []
     for g in case['grids']:
         P = g[0] * g[1]
@@ -93,7 +94,20 @@ def run_pipeline(case, tape):
             phi.setLayout('v_parallel_2d')
             rho.setLayout('v_parallel_2d')
             QN.findPotential(phi)
-            return dict(phi=phys.block(phi), modes=modes,
+            out_phi = phys.block(phi)
+            phi2 = None
+            if case.get('twice'):
+                # the same solver and grids used again with another density (as every time step does)
+                rho.getAllData()[:] = cm.local(R2, rho.getLayout('v_parallel_2d'))
+                QN.getModes(rho)
+                rho.setLayout('mode_solve')
+                phi.setLayout('mode_solve')
+                QN.solveEquation(phi, rho)
+                phi.setLayout('v_parallel_2d')
+                rho.setLayout('v_parallel_2d')
+                QN.findPotential(phi)
+                phi2 = phys.block(phi)
+            return dict(phi=out_phi, phi2=phi2, modes=modes,
                         eta=[np.asarray(x) for x in f.eta_grid] if rank == 0 else None,
                         cdict=ref.constants_dict(constants) if rank == 0 else None)
 
@@ -114,6 +128,11 @@ def run_pipeline(case, tape):
                 im = float(np.max(np.abs(got.imag))) / float(np.max(np.abs(got)))
                 if not (im <= 1e-12):
                     raise OracleFail('potential-not-real', dict(grid=g, imag_rel=im))
+            if case.get('twice'):
+                got2 = phys.assemble([r['phi2'] for r in results], npts[:3], 'phi (second solve)')
+                e2 = phys.relerr(got2, ref.qn_ref(R2, eta, cdict, case['chi'], case['adiabatic']))
+                if not (e2 <= 1e-9):
+                    raise OracleFail('potential-differs', dict(grid=g, relerr=e2, why='second solve on the same solver and grids'))
             phis.append(got)
             return dict(probes={'grid_%dx%d' % (g[0], g[1]): 1})
         with phys.force_procs({P: g}):
@@ -129,6 +148,8 @@ def run_pipeline(case, tape):
         probes = {'kind_pipeline': 1, 'chi_%d' % case['chi']: 1,
                   'adiabatic' if case['adiabatic'] else 'kinetic_electrons': 1,
                   'ntheta_even' if npts[1] % 2 == 0 else 'ntheta_odd': 1}
+        if case.get('twice'):
+            probes['solver_reused'] = 1
         return dict(nontrivial=case['P'] > 1, probes=probes)
     return M.finish(oracle=oracle)
 
